@@ -62,6 +62,102 @@ def known_witnesses(ctx):
                        signature={"site": "Operator.__call__", "op": name, "why": "partials-not-propagated"})
 
 
+# ---------------------------------------------------------------- n-D shifts with partials (real operators)
+ND_FINDING = {"site": "S-nd", "why": "partials-pruned-or-merged-independently"}
+
+
+def nd_spec(rng, mode):
+    """mode: 'int0' integer vector shifts with prune=0 (every state matrix keeps the same coordinates: must be
+    exact); 'int' integer vector shifts with the default pruning; 'float' float shifts on a grid (shift-merge)"""
+    spec = []
+    for _ in range(rng.randint(3, 9)):
+        k = rng.choice("TTESS")
+        if k == "T":
+            spec.append(("T", rng.choice([1., 0.5, 2.]), rng.choice([0., 30., 90., 200.])))
+        elif k == "E":
+            spec.append(("E", rng.choice([5., 10.]), rng.choice([0., 0.02])))
+        else:
+            if mode.startswith("int"):
+                kv = [rng.choice([1, -1, 2, 0]), rng.choice([1, -1, 0, 0])]
+            else:
+                kv = [rng.choice([1.5, -1.5, 2.5, 0.5]), rng.choice([1., -0.5, 0., 0.])]
+            if not any(kv):
+                kv[0] = 1
+            spec.append(("S", kv))
+    return {"mode": mode, "spec": spec, "a": rng.choice([30., 60., 90., 45., 180., 90.]), "T2": 30.0}
+
+
+def nd_run(c, a, T2, diff):
+    import epgpy as epg
+    mode = c["mode"]
+    sm = epg.StateMatrix(**({} if mode.startswith("int") else {"kgrid": 0.5}))
+    for o in c["spec"]:
+        if o[0] == "T":
+            op = epg.T(a * o[1], o[2], order1={"a": {"alpha": o[1]}} if diff else False)
+        elif o[0] == "E":
+            op = epg.E(o[1], 1000., T2, o[2], order1={"T2": "T2"} if diff else False)
+        else:
+            op = epg.S(o[1] if mode.startswith("int") else np.array(o[1]), **({"prune": 0} if mode == "int0" else {}))
+        sm = op(sm, inplace=True)
+    return sm
+
+
+def nd_check(c):
+    """None if the partials of the final state equal central differences; otherwise a description"""
+    try:
+        sm = nd_run(c, c["a"], c["T2"], True)
+    except Exception as e:
+        return "raised %s: %s" % (type(e).__name__, str(e)[:120])
+    for var, (da, dT) in (("a", (1, 0)), ("T2", (0, 1))):
+        if var not in getattr(sm, "order1", {}):
+            continue
+        h = 1e-4
+        p = nd_run(c, c["a"] + h * da, c["T2"] + h * dT, False)
+        m = nd_run(c, c["a"] - h * da, c["T2"] - h * dT, False)
+        part = sm.order1[var]
+        for q in ("F0", "Z0") + (("states",) if c["mode"] == "int0" else ()):
+            fd = (np.asarray(getattr(p, q)) - np.asarray(getattr(m, q))) / (2 * h)
+            an = np.asarray(getattr(part, q))
+            if fd.shape != an.shape or not np.allclose(fd, an, atol=1e-6):
+                return "d%s/d%s of the final state is %s but central differences give %s" % (
+                    q, var, np.round(an, 6).tolist() if an.size < 8 else "<%s array>" % (an.shape,),
+                    np.round(fd, 6).tolist() if fd.size < 8 else "<%s array>" % (fd.shape,))
+    return None
+
+
+ND_WITNESSES = [
+    {"mode": "int", "spec": [("T", 2.0, 200.0), ("S", [2, 0]), ("T", 0.5, 0.0)], "a": 90.0, "T2": 30.0},
+    {"mode": "int", "spec": [("S", [-1, 0]), ("T", 2.0, 0.0), ("T", 2.0, 200.0), ("S", [-1, 0]), ("T", 2.0, 30.0), ("S", [-1, 0]),
+                             ("E", 10.0, 0.02), ("E", 10.0, 0.0)], "a": 90.0, "T2": 30.0},
+]
+
+
+def nd_stream(ctx, n):
+    """n-D shifts apply to every partial state matrix on its own: with pruning (default) or merging (float shifts)
+    the coordinates of the partials drift from those of the state and the next differentiable operator adds them
+    entry-wise (known finding); with integer shifts and prune=0 the derivative must be exact"""
+    bad = 0
+    for c in ND_WITNESSES:
+        r = nd_check(c)
+        if r is not None:
+            ctx.report("n-D shift followed by a differentiable operator: %s" % r, {"ndcase": repr(c)}, found_input=True, signature=ND_FINDING)
+    for i in range(n):
+        c = nd_spec(ctx.rng, ("int0", "int0", "int", "float")[i % 4])
+        r = nd_check(c)
+        ctx.cov["nd_runs"] = ctx.cov.get("nd_runs", 0) + 1
+        ctx.count("nd:" + repr(c), nontrivial=sum(1 for o in c["spec"] if o[0] == "S") >= 1)
+        if r is None:
+            continue
+        if c["mode"] == "int0":
+            ctx.report("integer n-D shifts without pruning: %s" % r, {"ndcase": repr(c)}, found_input=True,
+                       signature={"site": "S-nd", "mode": "int-prune0"})
+        else:
+            bad += 1
+            if bad <= 2:
+                ctx.report("n-D shift (%s) with partials: %s" % (c["mode"], r), {"ndcase": repr(c)}, found_input=True, signature=ND_FINDING)
+    ctx.notes["nd_known_finding_hits"] = bad
+
+
 def run(ctx):
     proved = ctx.prove(gen=True)
     quick = ctx.tier == "quick"
@@ -120,6 +216,7 @@ def run(ctx):
                 ctx.report("Jacobian column %s = %s but finite differences of simulate() give %s" % (v, jac[j], fd),
                            {"params": par, "variable": v}, found_input=True, signature={"jacobian-vs-fd": v})
     known_witnesses(ctx)
+    nd_stream(ctx, 40 if quick else 1200)
     ctx.cov["trusted_base"] += [
         "translator (Gen/Transition.v, Gen/Evolution.v) validated by the Interval tie at %d function-points" % nok,
         "hand-written bookkeeping model Model/Diff.v tied to epgpy/diff.py by exact correspondence of sm.order1 after every operator",
@@ -134,5 +231,9 @@ def replay(ctx, rp):
     n0 = len(ctx.violations)
     if "witness" in rp:
         known_witnesses(ctx)
+    if "ndcase" in rp:
+        r = nd_check(eval(rp["ndcase"]))
+        print("replay n-D case:", r)
+        return 1 if r is not None else 0
     print("replay:", rp.get("what"))
     return 1
